@@ -10,15 +10,15 @@ namespace Loc
 /-- a coordinate `0 ≤ x ≤ 2^62` (printed 1-based, so `x + 1` must still fit in 64 bits) -/
 def coordOk (x : Int) : Bool := decide (0 ≤ x) && decide (x ≤ 4611686018427387904)
 
-def isCompl : Loc → Bool
+def isComplC : Loc → Bool
   | compl _ => true
   | _ => false
 
-def isJoined : Loc → Bool
+def isJoinedC : Loc → Bool
   | joined _ => true
   | _ => false
 
-def isOrdered : Loc → Bool
+def isOrderedC : Loc → Bool
   | ordered _ => true
   | _ => false
 
@@ -33,9 +33,9 @@ def canonP : Loc → Bool
   | ranged s e _ _ => coordOk s && coordOk e
   | ambiguous s e => coordOk s && coordOk e
   | joined ls =>
-      canonPList ls && decide (2 ≤ ls.length) && !ls.any isJoined && (join ls).beq (joined ls)
-  | ordered ls => canonPList ls && decide (2 ≤ ls.length) && !ls.any isOrdered
-  | compl l => canonP l && !isCompl l
+      canonPList ls && decide (2 ≤ ls.length) && !ls.any isJoinedC && (join ls).beq (joined ls)
+  | ordered ls => canonPList ls && decide (2 ≤ ls.length) && !ls.any isOrderedC
+  | compl l => canonP l && !isComplC l
 def canonPList : List Loc → Bool
   | [] => true
   | l :: ls => canonP l && canonPList ls
